@@ -141,6 +141,9 @@ func mkBuf(n, split, salt int) enc.Wire {
 		} else {
 			w = append(w, b[k*step:(k+1)*step])
 		}
+		if salt%3 == 0 && k == 0 { // "any number of buffers": some of them empty, also two in a row
+			w = append(w, []byte{}, []byte{})
+		}
 	}
 	return w
 }
@@ -494,6 +497,22 @@ func TestTlvShapes(t *testing.T) {
 				}
 				if _, _, ok := decodeOK(enc.NewWireReader(ww)); !ok {
 					seg = false
+				}
+			}
+			// segment boundaries may coincide: empty segments, also several in a row, anywhere in the presentation
+			for _, c := range cutsOf(len(raw)) {
+				for _, ww := range []enc.Wire{{raw[:c], {}, raw[c:]}, {raw[:c], {}, {}, raw[c:]}, {{}, {}, raw[:c], raw[c:], {}, {}}} {
+					func() {
+						defer func() {
+							if r := recover(); r != nil {
+								seg = false
+								ev["err"] = fmt.Sprint("panic with empty segments: ", r)
+							}
+						}()
+						if _, _, ok := decodeOK(enc.NewWireReader(ww)); !ok {
+							seg = false
+						}
+					}()
 				}
 			}
 			ev["rtSegmented"] = seg
